@@ -136,7 +136,7 @@ func splitQueries(dst []*subquery, source string, scope map[string]string, expr 
 		switch op := expr.Operators[i].(type) {
 		case *parser.AsOperator:
 			var err error
-			lastSubquery, err = chainSubquery(dst, dstStart, expr.Source)
+			lastSubquery, err = chainSubquery(dst, dstStart, source, expr.Source)
 			if err != nil {
 				return nil, err
 			}
@@ -148,7 +148,7 @@ func splitQueries(dst []*subquery, source string, scope map[string]string, expr 
 		case *parser.SortOperator:
 			if lastSubquery == nil || !canAttachSort(lastSubquery.op) || lastSubquery.sort != nil || lastSubquery.take != nil {
 				var err error
-				lastSubquery, err = chainSubquery(dst, dstStart, expr.Source)
+				lastSubquery, err = chainSubquery(dst, dstStart, source, expr.Source)
 				if err != nil {
 					return nil, err
 				}
@@ -158,7 +158,7 @@ func splitQueries(dst []*subquery, source string, scope map[string]string, expr 
 		case *parser.TakeOperator:
 			if lastSubquery == nil || !canAttachSort(lastSubquery.op) || lastSubquery.take != nil {
 				var err error
-				lastSubquery, err = chainSubquery(dst, dstStart, expr.Source)
+				lastSubquery, err = chainSubquery(dst, dstStart, source, expr.Source)
 				if err != nil {
 					return nil, err
 				}
@@ -168,7 +168,7 @@ func splitQueries(dst []*subquery, source string, scope map[string]string, expr 
 		case *parser.TopOperator:
 			if lastSubquery == nil || !canAttachSort(lastSubquery.op) || lastSubquery.sort != nil || lastSubquery.take != nil {
 				var err error
-				lastSubquery, err = chainSubquery(dst, dstStart, expr.Source)
+				lastSubquery, err = chainSubquery(dst, dstStart, source, expr.Source)
 				if err != nil {
 					return nil, err
 				}
@@ -240,13 +240,13 @@ func splitQueries(dst []*subquery, source string, scope map[string]string, expr 
 			}
 
 			lastSubquery = &subquery{
-				name:      subqueryName(len(dst)),
+				name:      subqueryName(source, len(dst)),
 				sourceSQL: joinSource.String(),
 			}
 			dst = append(dst, lastSubquery)
 		default:
 			var err error
-			lastSubquery, err = chainSubquery(dst, dstStart, expr.Source)
+			lastSubquery, err = chainSubquery(dst, dstStart, source, expr.Source)
 			if err != nil {
 				return nil, err
 			}
@@ -258,7 +258,7 @@ func splitQueries(dst []*subquery, source string, scope map[string]string, expr 
 	if len(dst) == dstStart {
 		// Ensure that we add at least one subquery.
 		var err error
-		lastSubquery, err = chainSubquery(dst, dstStart, expr.Source)
+		lastSubquery, err = chainSubquery(dst, dstStart, source, expr.Source)
 		if err != nil {
 			return nil, err
 		}
@@ -271,9 +271,9 @@ func splitQueries(dst []*subquery, source string, scope map[string]string, expr 
 // chainSubquery returns a new subquery
 // that either reads from the previous subquery
 // or from the data source if there is no previous subquery.
-func chainSubquery(dst []*subquery, dstStart int, src parser.TabularDataSource) (*subquery, error) {
+func chainSubquery(dst []*subquery, dstStart int, source string, src parser.TabularDataSource) (*subquery, error) {
 	sub := &subquery{
-		name: subqueryName(len(dst)),
+		name: subqueryName(source, len(dst)),
 	}
 	sb := new(strings.Builder)
 	if len(dst) > dstStart {
@@ -287,8 +287,15 @@ func chainSubquery(dst []*subquery, dstStart int, src parser.TabularDataSource) 
 	return sub, nil
 }
 
-func subqueryName(i int) string {
-	return fmt.Sprintf("__subquery%d", i)
+// subqueryName returns the name of the i'th generated subquery.
+// The name must not collide with a table or "as" name written in the query,
+// so the prefix gains underscores until it occurs nowhere in the source.
+func subqueryName(source string, i int) string {
+	prefix := "__subquery"
+	for strings.Contains(source, prefix) {
+		prefix = "_" + prefix
+	}
+	return fmt.Sprintf("%s%d", prefix, i)
 }
 
 // canAttachSort reports whether the given operator's subquery can have a sort clause attached.
